@@ -58,6 +58,7 @@ type Exec struct {
 	knownWidth  map[int]int
 	collectLocs *[]Loc
 	loopFrames  []*loopFrameRec
+	inputDefs   []*Term // definitions of the replay constants (added to failing-obligation queries only)
 	unfolding   map[*ssa.Function]int
 	unfolded    map[int]bool
 	extra       map[*Cell]Val
@@ -67,7 +68,13 @@ type inputVar struct {
 	Name string
 	Typ  types.Type
 	T    *Term
+	// model extraction for replay: the first elements of a slice-of-scalars / the first bytes of a string input
+	Elems  []*Term // fresh constants equal to the elements (in the entry state)
+	LenVar *Term   // for strings: constant equal to the length
+	Pointee *Term  // for *struct parameters: the pointed-to struct rebuilt from fresh constants (scalar leaves only)
 }
+
+const replayElems = 32
 
 type Loc struct {
 	arr string
